@@ -1012,7 +1012,12 @@ class Builder(object):
                     index +=1
 
                 elif connective == 'keep':
-                    keep = max(0, int(Convert2Num(tokens[index])))
+                    try:
+                        keep = max(0, int(Convert2Num(tokens[index])))
+                    except (TypeError, OverflowError):  # complex or inf
+                        msg = "Error building %s. Bad keep copies got %s." %\
+                              (command, tokens[index])
+                        raise excepting.ParseError(msg, tokens, index)
                     index +=1
 
                 elif connective == 'cycle':
